@@ -1,50 +1,45 @@
 import PymtlVerif.Proofs.Pipe
+import PymtlVerif.Proofs.PipeDemo
+import PymtlVerif.Proofs.PipeExcl
+import PymtlVerif.Proofs.PipeL2
+import PymtlVerif.Proofs.PipeL2Ex
+import PymtlVerif.Proofs.PipeRef6
+import PymtlVerif.Proofs.PipeEx
 /-!
-# C20p — the five-stage `ProcRTL` itself (cycle-level model `Model/Pipe.lean`)
+# C20p — the five-stage `ProcRTL` itself, inside the model
 
-LEVEL 1 (this section): one-cycle facts of the transcribed control equations, for every state and every
-environment input.  LEVEL 2 / 3 theorems follow below as they are proved.
+`Model/Pipe.lean` is a cycle-level transcription of ProcCtrlRTL + ProcDpathRTL + drop unit + the fetch-path
+queues (tied to /repo cycle by cycle by `harness/checks/c20_pipe.py`).  Proved here about that model:
+
+* LEVEL 1 — one-cycle facts of the control equations, any state, any input: stall chain, a stalled stage keeps
+  its instruction, bubbles, squash only from a taken branch in a non-stalled X and only into D and F,
+  register-file writes only from W, x0.
+* LEVEL 2 — for all states reachable from power-on under ANY input list (no assumption on the environment,
+  resets at any time), with ghost sequence numbers: every stage is a one-place buffer of its input stream
+  (`stage_conservation`), tags are strictly increasing from W back to F and commits are in fetch order without
+  repetition (`tags_in_order`), every fetched instruction is exactly one of committed / squashed in D /
+  squashed in F / still in flight (`no_dup_no_loss`), squashed instructions are younger than the branch
+  (`squashed_younger`), the drop unit drops exactly the responses of squashed fetches and the stream entering
+  D is the stream of the others (`drop_unit_exact`, `deq_accounted`), a register-file write comes from a
+  non-stalled W (`rf_written_by_unstalled_W`).
+* LEVEL 3 — data correctness for ALL programs and ALL environment timings allowed by the explicit assumption
+  `envOk` (instruction memory answers accepted fetches in order with the words of the image, data memory
+  answers accepted requests in order with little-endian word semantics, mngr2proc delivers the source list in
+  order; every `rdy` and all delays arbitrary, no fairness): the control table + immediate generator + ALU
+  implement the ten instructions (`isa_step_is_datapath`); along every admissible trace from reset the
+  refinement invariant holds (`refinement_invariant`: operands after bypass, results, branch decisions,
+  memory and mngr2proc side effects of every valid instruction in D/X/M/W are the ISA's at its position in
+  program order; at most two fetches outstanding); hence register file and proc2mngr stream always equal the
+  ISA state after as many instructions as have committed (`arch_state_refines`), and the sequence of
+  architectural states at the commits IS the ISA execution (`commits_are_isa`).
+  Hypothesis on the program (`Runs p N`): the ISA interpreter executes N instructions from reset without
+  stopping, and none of them was overwritten by an earlier store (no self-modifying code).  Safety only: nothing
+  says that a commit ever happens (the environment may stall forever).
 -/
 namespace PV.C20p
 open PV.Pipe
 
-/-! ## a concrete recorded trace (first 28 cycles of the real ProcRTL in the repo's TestHarness running
-`csrr x1; addi x2,x0,2; L: sw x2,0(x1); lw x3,0(x1); add x4,x3,x2; addi x2,x2,-1; bne x2,x0,L; csrw x4`
-with memory latency 1, sink delay 1; generated by the recording harness of `harness/checks/c20_pipe.py`) -/
-
-def demoTrace : List EnvIn := [
-  { reset := true },
-  { reset := true },
-  { reset := true },
-  { imem_req_rdy := true, dmem_req_rdy := true, mngr2proc_en := true, mngr2proc_msg := 8192, proc2mngr_rdy := true, xcel_req_rdy := true },
-  { imem_req_rdy := true, imem_resp_en := true, imem_resp_data := 4227866867, dmem_req_rdy := true, mngr2proc_msg := 8192, proc2mngr_rdy := true, xcel_req_rdy := true },
-  { imem_req_rdy := true, imem_resp_en := true, imem_resp_data := 2097427, dmem_req_rdy := true, mngr2proc_msg := 8192, proc2mngr_rdy := true, xcel_req_rdy := true },
-  { imem_req_rdy := true, imem_resp_en := true, imem_resp_data := 2138147, dmem_req_rdy := true, mngr2proc_msg := 8192, proc2mngr_rdy := true, xcel_req_rdy := true },
-  { imem_req_rdy := true, imem_resp_en := true, imem_resp_data := 41347, dmem_req_rdy := true, mngr2proc_msg := 8192, proc2mngr_rdy := true, xcel_req_rdy := true },
-  { imem_req_rdy := true, imem_resp_en := true, imem_resp_data := 2196019, dmem_req_rdy := true, mngr2proc_msg := 8192, proc2mngr_rdy := true, xcel_req_rdy := true },
-  { imem_req_rdy := true, imem_resp_en := true, imem_resp_data := 4293984531, dmem_req_rdy := true, dmem_resp_en := true, mngr2proc_msg := 8192, proc2mngr_rdy := true, xcel_req_rdy := true },
-  { imem_req_rdy := true, imem_resp_data := 4293984531, dmem_req_rdy := true, dmem_resp_en := true, dmem_resp_data := 2, mngr2proc_msg := 8192, proc2mngr_rdy := true, xcel_req_rdy := true },
-  { imem_req_rdy := true, imem_resp_en := true, imem_resp_data := 4261484771, dmem_req_rdy := true, dmem_resp_data := 2, mngr2proc_msg := 8192, proc2mngr_rdy := true, xcel_req_rdy := true },
-  { imem_req_rdy := true, imem_resp_en := true, imem_resp_data := 2080510067, dmem_req_rdy := true, dmem_resp_data := 2, mngr2proc_msg := 8192, proc2mngr_rdy := true, xcel_req_rdy := true },
-  { imem_req_rdy := true, imem_resp_en := true, dmem_req_rdy := true, dmem_resp_data := 2, mngr2proc_msg := 8192, proc2mngr_rdy := true, xcel_req_rdy := true },
-  { imem_req_rdy := true, imem_resp_en := true, imem_resp_data := 2138147, dmem_req_rdy := true, dmem_resp_data := 2, mngr2proc_msg := 8192, proc2mngr_rdy := true, xcel_req_rdy := true },
-  { imem_req_rdy := true, imem_resp_en := true, imem_resp_data := 41347, dmem_req_rdy := true, dmem_resp_data := 2, mngr2proc_msg := 8192, proc2mngr_rdy := true, xcel_req_rdy := true },
-  { imem_req_rdy := true, imem_resp_en := true, imem_resp_data := 2196019, dmem_req_rdy := true, dmem_resp_data := 2, mngr2proc_msg := 8192, proc2mngr_rdy := true, xcel_req_rdy := true },
-  { imem_req_rdy := true, imem_resp_en := true, imem_resp_data := 4293984531, dmem_req_rdy := true, dmem_resp_en := true, mngr2proc_msg := 8192, proc2mngr_rdy := true, xcel_req_rdy := true },
-  { imem_req_rdy := true, imem_resp_data := 4293984531, dmem_req_rdy := true, dmem_resp_en := true, dmem_resp_data := 1, mngr2proc_msg := 8192, proc2mngr_rdy := true, xcel_req_rdy := true },
-  { imem_req_rdy := true, imem_resp_en := true, imem_resp_data := 4261484771, dmem_req_rdy := true, dmem_resp_data := 1, mngr2proc_msg := 8192, proc2mngr_rdy := true, xcel_req_rdy := true },
-  { imem_req_rdy := true, imem_resp_en := true, imem_resp_data := 2080510067, dmem_req_rdy := true, dmem_resp_data := 1, mngr2proc_msg := 8192, proc2mngr_rdy := true, xcel_req_rdy := true },
-  { imem_req_rdy := true, imem_resp_en := true, dmem_req_rdy := true, dmem_resp_data := 1, mngr2proc_msg := 8192, proc2mngr_rdy := true, xcel_req_rdy := true },
-  { imem_req_rdy := true, imem_resp_en := true, dmem_req_rdy := true, dmem_resp_data := 1, mngr2proc_msg := 8192, proc2mngr_rdy := true, xcel_req_rdy := true },
-  { imem_req_rdy := true, imem_resp_en := true, dmem_req_rdy := true, dmem_resp_data := 1, mngr2proc_msg := 8192, proc2mngr_rdy := true, xcel_req_rdy := true },
-  { imem_req_rdy := true, imem_resp_en := true, dmem_req_rdy := true, dmem_resp_data := 1, mngr2proc_msg := 8192, proc2mngr_rdy := true, xcel_req_rdy := true },
-  { imem_req_rdy := true, imem_resp_en := true, dmem_req_rdy := true, dmem_resp_data := 1, mngr2proc_msg := 8192, xcel_req_rdy := true },
-  { imem_req_rdy := true, imem_resp_en := true, dmem_req_rdy := true, dmem_resp_data := 1, mngr2proc_msg := 8192, proc2mngr_rdy := true, xcel_req_rdy := true },
-  { imem_req_rdy := true, imem_resp_en := true, dmem_req_rdy := true, dmem_resp_data := 1, mngr2proc_msg := 8192, proc2mngr_rdy := true, xcel_req_rdy := true }
-]
-
-/-- the states / inputs / outputs of the demo trace, from the power-on state -/
-def demo : List (State × EnvIn × EnvOut) := run State.init demoTrace
+/-! # LEVEL 1 -/
 
 /-! ## stall / bubble / squash, one cycle, any state, any input -/
 
@@ -131,5 +126,194 @@ example : ((demo.take 25).filter fun r => r.2.2.commit_inst).length = 13 := by d
 example : (demo.filterMap fun r => if r.2.2.proc2mngr_en then some r.2.2.proc2mngr_msg else none) = [2] := by decide
 -- the register file at the end: x1 = 0x2000, x2 = 0, x3 = 1, x4 = 2
 example : (runS State.init demoTrace).rf.take 5 = [0, 0x2000, 0, 1, 2] := by decide
+
+
+/-! # LEVEL 2: reachable states under any input, ghost sequence numbers
+
+`Ghost` / `gnext` / `grun` (`Proofs/PipeGhost.lean`) instrument the model: every fetch issue (`reg_en_F`) takes a
+fresh tag; tags move with the instructions; logs record what leaves each stage.  A reset cycle clears the
+logs and starts a new tag epoch (`base`).  `Reach s g` = `(s, g)` is the instrumented state after some input
+list from power-on. -/
+
+/-- the ghost state does not influence the model -/
+theorem ghost_projection (s : State) (g : Ghost) (envs : List EnvIn) : (grun s g envs).1 = runS s envs :=
+  grun_fst s g envs
+
+/-- every stage is a one-place buffer: (stream that entered) = (log of what left) ++ (occupant).
+F: the tags issued since reset are the consumed responses, then the awaited squashed fetch, then the current
+fetch.  D receives exactly the non-dropped responses; X exactly the non-squashed instructions that left D;
+M what left X; W what left M; commits what left W.  So the sequence entering stage S+1 is the
+subsequence-by-squash of the sequence entering S, nothing duplicated, nothing lost, order kept. -/
+theorem stage_conservation {s : State} {g : Ghost} (h : Reach s g) :
+    List.range' g.base (g.nxt - g.base) = g.consumedF.map (·.1) ++ opt [g.tWait] s.drop_wait ++ opt [g.tF] s.val_F ∧
+    (g.consumedF.filter (fun e => !e.2)).map (·.1) = g.outD.map (·.1) ++ opt [g.tD] s.val_D ∧
+    (g.outD.filter (fun e => !e.2)).map (·.1) = g.outX ++ opt [g.tX] s.val_X ∧
+    g.outX = g.outM ++ opt [g.tM] s.val_M ∧
+    g.outM = g.commits ++ opt [g.tW] s.val_W ∧
+    (s.drop_wait = true → s.val_D = false ∧ s.val_X = false) :=
+  ⟨h.inv.F, h.inv.D, h.inv.X, h.inv.M, h.inv.W, h.inv.wait⟩
+
+/-- committed tags, then the tags in W, M, X, D, the drop unit, F are strictly increasing: commits are in
+fetch order without repetition, everything committed is older than everything in flight, the pipeline holds
+strictly younger instructions from W back to F -/
+theorem tags_in_order {s : State} {g : Ghost} (h : Reach s g) :
+    List.Pairwise (· < ·)
+      (g.commits ++ opt [g.tW] s.val_W ++ opt [g.tM] s.val_M ++ opt [g.tX] s.val_X ++ opt [g.tD] s.val_D
+        ++ opt [g.tWait] s.drop_wait ++ opt [g.tF] s.val_F) := tags_increasing h
+
+/-- every tag issued since the last reset is exactly one of: committed, squashed in D, squashed in F, still
+in W / M / X / D / F -/
+theorem no_dup_no_loss {s : State} {g : Ghost} (h : Reach s g) :
+    List.Perm
+      (g.commits ++ (g.outD.filter (·.2)).map (·.1) ++ g.sqF ++
+        (opt [g.tW] s.val_W ++ opt [g.tM] s.val_M ++ opt [g.tX] s.val_X ++ opt [g.tD] s.val_D ++ opt [g.tF] s.val_F))
+      (List.range' g.base (g.nxt - g.base)) := fate_partition h
+
+/-- when X squashes, what it squashes (D, F) is younger than the branch, and the branch itself moves on to M -/
+theorem squashed_younger {s : State} {g : Ghost} (h : Reach s g) (i : EnvIn) (hq : osquash_X s i = true) :
+    (s.val_D = true → g.tX < g.tD) ∧ (s.val_F = true → g.tX < g.tF) ∧
+    (i.reset = false → (gnext s g i).outX = g.outX ++ [g.tX]) := squashed_are_younger h i hq
+
+/-- the drop unit drops exactly the responses of the squashed fetches (in order; the last one may still be
+awaited), the stream entering D is exactly the stream of non-dropped responses, and only squashed fetches
+are dropped -/
+theorem drop_unit_exact {s : State} {g : Ghost} (h : Reach s g) :
+    g.sqF = (g.consumedF.filter (·.2)).map (·.1) ++ opt [g.tWait] s.drop_wait ∧
+    (g.consumedF.filter (fun e => !e.2)).map (·.1) = g.outD.map (·.1) ++ opt [g.tD] s.val_D ∧
+    (∀ e ∈ g.consumedF, e.2 = true → e.1 ∈ g.sqF) := drop_exact h
+
+/-- every real dequeue from the instruction response queue is a WAIT-drop, a squash-drop, a delivery to D, or
+(before the first fetch only) an unrequested response thrown away -/
+theorem deq_is_accounted (s : State) (g : Ghost) (i : EnvIn) (hr : i.reset = false)
+    (hen : drop_in_en s i = true) (hrdy : drop_in_rdy s i = true) :
+    (s.drop_wait = true ∧ (gnext s g i).consumedF = g.consumedF ++ [(g.tWait, true)]) ∨
+    (s.drop_wait = false ∧ squash_F s i = true ∧ (gnext s g i).consumedF = g.consumedF ++ [(g.tF, true)]) ∨
+    (s.drop_wait = false ∧ next_val_F s i = true ∧ (gnext s g i).consumedF = g.consumedF ++ [(g.tF, false)]) ∨
+    (s.drop_wait = false ∧ s.val_F = false ∧ (gnext s g i).consumedF = g.consumedF) :=
+  deq_accounted s g i hr hen hrdy
+
+/-- in every state reachable from power-on under any input list, a register-file write comes from a valid,
+NON-STALLED (committing) W-stage instruction with `rf_wen_pending` and a non-zero destination -/
+theorem rf_written_by_unstalled_W (envs : List EnvIn) (i : EnvIn)
+    (hc : (next (runS State.init envs) i).rf ≠ (runS State.init envs).rf) :
+    let s := runS State.init envs
+    s.val_W = true ∧ stall_W s i = false ∧ commit_inst s i = true ∧ s.cw.rf_wen_pending = true ∧
+    s.cw.rf_waddr ≠ 0 ∧ (next s i).rf = s.rf.set s.cw.rf_waddr s.wb_result_W :=
+  rf_change_unstalled (excl_run envs) i hc
+
+-- non-vacuity: `Proofs/PipeL2Ex.lean` evaluates the ghost machine on the recorded trace (one instruction squashed
+-- in D, one fetch squashed in F and dropped at once, 16 commits) and on a variant that goes through the WAIT
+-- state of the drop unit and through a reset in mid-flight; two of its facts repeated here
+example : (grun State.init {} demoTrace).2.sqF = [8] ∧
+    ((grun State.init {} demoTrace).2.outD.filter (·.2)).map (·.1) = [7] := by decide
+example : (grun State.init {} (waitTrace.take 14)).1.drop_wait = true := by decide
+
+/-! # LEVEL 3: the committed instructions are the ISA execution -/
+
+open PV.TinyRV0 (decode exec loadWord)
+
+/-- the control-signal table, the immediate generator and the ALU implement the ISA: for every word the ISA
+document decodes and every state in which it executes, the ISA step is the step computed through the
+table row of that word (`U.next`: rs1 / rs2 / immediate / mngr2proc operand selection, ALU function,
+write-back select, memory request type, branch condition), and the row satisfies the side conditions the
+hazard logic relies on (`RowOk`) -/
+theorem isa_step_is_datapath (S S' : TinyRV0.State) (w : Nat) (ins : TinyRV0.Inst)
+    (hd : decode w = some ins) (he : exec S ins = .ok S') : S' = U.next S w ∧ RowOk S w :=
+  exec_uniform S S' w ins hd he
+
+/-- the refinement invariant holds after every admissible trace from a post-reset state, with the commit
+count of the trace -/
+theorem refinement_invariant (p : Prog) (N : Nat) (hR : Runs p N) (s0 : State) (h0 : PostReset s0)
+    (envs : List EnvIn) (hE : EnvTrace p (Env.init p) s0 envs) :
+    Inv p N (runS s0 envs) (envRun (Env.init p) s0 envs) (commitCount s0 envs) := by
+  simpa using inv_run hR envs (inv_init p N h0) hE
+
+/-- at every moment the architectural state of the pipeline is the ISA state after as many instructions
+as have committed: register file, messages sent to proc2mngr, and -- once X, M, W are empty -- the data
+memory; the mngr2proc messages not yet consumed by the ISA are still in the source list or the input queue -/
+theorem arch_state_refines (p : Prog) (N : Nat) (hR : Runs p N) (s0 : State) (h0 : PostReset s0)
+    (envs : List EnvIn) (hE : EnvTrace p (Env.init p) s0 envs) (hk : commitCount s0 envs ≤ N) :
+    let s := runS s0 envs
+    let k := commitCount s0 envs
+    s.rf = (isaAt p k).regs ∧ sent s0 envs = (isaAt p k).out ∧
+    (s.val_X = false → s.val_M = false → s.val_W = false →
+      (envRun (Env.init p) s0 envs).dmem = (isaAt p k).mem ∧
+      (s.val_D = false → (if s.mngr2proc_q.full then [s.mngr2proc_q.entry] else []) ++
+        (envRun (Env.init p) s0 envs).src = (isaAt p k).inp)) := by
+  have I := refinement_invariant p N hR s0 h0 envs hE
+  refine ⟨I.rf hk, ?_, ?_⟩
+  · have := I.out hk
+    rw [envRun_out] at this
+    simpa [Env.init] using this
+  · intro hx hm hw
+    have e : iX (runS s0 envs) (commitCount s0 envs) = commitCount s0 envs := by simp [iX, iM, hw, hm]
+    refine ⟨by have := I.dmem (by rw [e]; exact hk); rw [e] at this; exact this, ?_⟩
+    intro hd
+    have e2 : iD (runS s0 envs) (commitCount s0 envs) = commitCount s0 envs := by simp [iD, e, hx]
+    have := I.inp (by rw [e2]; exact hk); rw [e2] at this; exact this
+
+/-- `commits (run s0 envs) = isaPrefix prog k`: the register file and the proc2mngr stream observed right
+after each commit are those of the ISA after 1, 2, ..., k instructions -/
+theorem commits_are_isa (p : Prog) (N : Nat) (hR : Runs p N) (s0 : State) (h0 : PostReset s0)
+    (envs : List EnvIn) (hE : EnvTrace p (Env.init p) s0 envs) (hk : commitCount s0 envs ≤ N) :
+    commitObs (Env.init p) s0 envs = isaObs p 0 (commitCount s0 envs) :=
+  commitObs_eq hR envs (inv_init p N h0) hE (by simpa using hk)
+
+/-- the hardware's branch decision is the ISA's: in every admissible state, a valid X-stage instruction
+inside the ISA window redirects the PC iff the ISA takes the branch, and a squash leaves the ISA's next
+PC in the PC register -/
+theorem branch_decision_is_isa (p : Prog) (N : Nat) (hR : Runs p N) (s0 : State) (h0 : PostReset s0)
+    (envs : List EnvIn) (hE : EnvTrace p (Env.init p) s0 envs) :
+    let s := runS s0 envs
+    let k := iX s (commitCount s0 envs)
+    s.val_X = true → k < N → pc_redirect_X s = U.taken (isaAt p k) (wordAt p k) :=
+  fun hv hj => redirect_X_ok hR (refinement_invariant p N hR s0 h0 envs hE) hv hj
+
+/-! ## the assumptions are satisfiable -/
+
+/-- the environment assumption is satisfiable for every program, from every state, for every length: the
+environment that answers as early as the protocol allows -/
+theorem env_assumption_satisfiable (p : Prog) (n : Nat) (E : Env) (s : State) :
+    EnvTrace p E s (idealTrace p n E s) := idealTrace_ok p n E s
+
+-- so is the silent one: never ready, never answering (no fairness is assumed anywhere)
+example (p : Prog) (E : Env) (s : State) : EnvTrace p E s [{}, {}, {}] := by
+  simp [EnvTrace, envOk]
+
+/-- one reset cycle from power-on gives a `PostReset` state (so does the reset sequence of the simulator) -/
+theorem reset_gives_postReset (i : EnvIn) (hr : i.reset = true) : PostReset (next State.init i) :=
+  postReset_of_reset i hr
+example : PostReset (runS State.init (demoTrace.take 3)) := by
+  constructor <;> decide
+
+/-- a program that satisfies `Runs`: `addi x1, x0, 5 ; csrw proc2mngr, x1` -/
+theorem runs_satisfiable : Runs tiny 2 := tiny_runs
+
+-- all hypotheses of `commits_are_isa` together, on `tiny` against the ideal environment, any number of cycles
+example (n : Nat) :
+    let s0 := next State.init { reset := true }
+    let envs := idealTrace tiny n (Env.init tiny) s0
+    commitCount s0 envs ≤ 2 → commitObs (Env.init tiny) s0 envs = isaObs tiny 0 (commitCount s0 envs) :=
+  fun hk => commits_are_isa tiny 2 tiny_runs _ (postReset_of_reset _ rfl) _ (idealTrace_ok tiny n _ _) hk
+
+
+/-! ## a concrete instance end to end: the real ProcRTL's recorded inputs while running `tiny` -/
+
+-- the recorded inputs satisfy the environment assumption for `tiny` (`tinyTrace_ok`, by a reflective checker
+-- for the fetch bookkeeping + the four words of the image that were fetched)
+example : EnvTrace tiny (Env.init tiny) tinyS0 tinyTrace := tinyTrace_ok
+-- two commits in these nine cycles, and 5 is sent to proc2mngr in the second one
+example : commitCount tinyS0 tinyTrace = 2 ∧ sent tinyS0 tinyTrace = [5] := by decide
+-- what the model's pipeline shows at its two commits (evaluated) ...
+example : (commitObs (Env.init tiny) tinyS0 tinyTrace).map (fun o => (o.1.take 3, o.2)) = [([0, 5, 0], []), ([0, 5, 0], [5])] := by
+  decide
+-- ... is, by `commits_are_isa`, the ISA's register file and output stream after 1 and 2 instructions
+example : isaObs tiny 0 2 = commitObs (Env.init tiny) tinyS0 tinyTrace :=
+  (commits_are_isa tiny 2 tiny_runs tinyS0 (postReset_of_reset _ rfl) tinyTrace tinyTrace_ok (by decide)).symm
+example : (isaAt tiny 2).out = [5] ∧ (isaAt tiny 2).regs.take 3 = [0, 5, 0] := by
+  have h := arch_state_refines tiny 2 tiny_runs tinyS0 (postReset_of_reset _ rfl) tinyTrace tinyTrace_ok (by decide)
+  have hc : commitCount tinyS0 tinyTrace = 2 := by decide
+  simp only [hc] at h
+  exact ⟨by rw [← h.2.1]; decide, by rw [← h.1]; decide⟩
 
 end PV.C20p
